@@ -58,20 +58,17 @@ theorem buildHeader_typ (name : Str) (s : StatInfo) (link : Str) (capR : Res) :
 
 /-- **one `addTarFile` keeps the archive self-consistent** (default whiteout format): directory
     names end in "/", every hard-link entry follows, and names, an earlier non-link entry, and
-    every remembered inode has such an entry — provided entries are never left out for an
-    untranslatable owner (no ID mapping) -/
-theorem addTarFile_inv (o : PackOpts) (st : PackState) (path name : Str) (h : StInv st)
-    (hid : o.uidMaps = [] ∧ o.gidMaps = []) (hov : o.overlay = false) :
+    every remembered inode has such an entry — for every ID mapping (an entry left out for an
+    untranslatable owner is forgotten again: fix D22) -/
+theorem addTarFile_inv (o : PackOpts) (st : PackState) (path name : Str) (h : StInv st) (hov : o.overlay = false) :
     (addTarFileP o st path name).All StInv := by
   have after : ∀ (s : StatInfo) (link : Str) (capR : Res), (afterStatP o st path name s link capR).All StInv := by
     intro s link capR
     unfold afterStatP
     simp only
-    have hown : ∃ ug, ownerOf o s (linkStage st name s (buildHeader name s link capR)).1 = some ug := by
-      unfold ownerOf
-      simp [idMapEmpty, hid.1, hid.2]
-    obtain ⟨⟨u, g⟩, hug⟩ := hown
-    rw [hug]
+    split
+    · exact h
+    rename_i u g _
     simp only [hov, Bool.false_eq_true, if_false]
     -- the state and header after the hard-link stage
     unfold linkStage
@@ -142,7 +139,7 @@ theorem rbind_all {α β : Type} {P : α → Prop} {Q : β → Prop} (m : RProg 
     (hm : m.All P) (hf : ∀ a, P a → (f a).All Q) : (m.bind f).All Q := RProg.All.bind m f hm hf
 
 /-- the invariant survives the walk of one include -/
-theorem walk_inv (o : PackOpts) (src inc : Str) (hid : o.uidMaps = [] ∧ o.gidMaps = []) (hov : o.overlay = false) :
+theorem walk_inv (o : PackOpts) (src inc : Str) (hov : o.overlay = false) :
     ∀ (items : List (Str × Kind × Nat)) (ws : WalkSt) (st : PackState), StInv st →
       (walkP o src inc items ws st).All StInv := by
   intro items
@@ -154,9 +151,9 @@ theorem walk_inv (o : PackOpts) (src inc : Str) (hid : o.uidMaps = [] ∧ o.gidM
     simp only [walkP]
     split
     · exact ih _ _ h
-    · exact rbind_all _ _ (addTarFile_inv o _ _ _ ⟨h.dirSlash, h.links, h.seen⟩ hid hov) (fun st2 h2 => ih _ st2 h2)
+    · exact rbind_all _ _ (addTarFile_inv o _ _ _ ⟨h.dirSlash, h.links, h.seen⟩ hov) (fun st2 h2 => ih _ st2 h2)
 
-theorem includes_inv (o : PackOpts) (src : Str) (hid : o.uidMaps = [] ∧ o.gidMaps = []) (hov : o.overlay = false) :
+theorem includes_inv (o : PackOpts) (src : Str) (hov : o.overlay = false) :
     ∀ (incs : List Str) (st : PackState), StInv st → (includesP o src incs st).All StInv := by
   intro incs
   induction incs with
@@ -167,7 +164,7 @@ theorem includes_inv (o : PackOpts) (src : Str) (hid : o.uidMaps = [] ∧ o.gidM
     intro t
     cases t with
     | tree items =>
-      exact rbind_all _ _ (walk_inv o src inc hid hov items {} st h) (fun st1 h1 => ih st1 h1)
+      exact rbind_all _ _ (walk_inv o src inc hov items {} st h) (fun st1 h1 => ih st1 h1)
     | _ => exact ih st h
 
 theorem linksOK_reverse_spec : ∀ (out : List Entry), LinksOK out →
@@ -200,8 +197,7 @@ theorem linksOK_reverse_spec : ∀ (out : List Entry), LinksOK out →
 
 /-- **every archive `TarWithOptions` produces, on any filesystem**: a directory's name ends in "/",
     and every hard-link entry follows, and names, an earlier entry that is not itself a link -/
-theorem tar_self_consistent (src : Str) (o : PackOpts) (w : World)
-    (hid : o.uidMaps = [] ∧ o.gidMaps = []) (hov : o.overlay = false) :
+theorem tar_self_consistent (src : Str) (o : PackOpts) (w : World) (hov : o.overlay = false) :
     let es := ((tarP src o).run w).1
     (∀ e ∈ es, e.typ = .dir → hasSuffix e.name slashStr = true) ∧
     (∀ (i : Nat) (e : Entry), es[i]? = some e → e.typ = .link →
@@ -213,7 +209,7 @@ theorem tar_self_consistent (src : Str) (o : PackOpts) (w : World)
     | stat s =>
       simp only
       have h0 : StInv ({} : PackState) := ⟨by simp, trivial, by simp⟩
-      exact rbind_all _ _ (includes_inv o _ hid hov _ {} h0) (fun st hst => ⟨st, hst, rfl⟩)
+      exact rbind_all _ _ (includes_inv o _ hov _ {} h0) (fun st hst => ⟨st, hst, rfl⟩)
     | _ =>
       have h0 : StInv ({} : PackState) := ⟨by simp, trivial, by simp⟩
       exact ⟨{}, h0, rfl⟩
